@@ -80,6 +80,7 @@ func SpecBar(s string, f, i int) bool {
 //@   ensures SpecCloseFrom(s, f, i) == -1 || (i <= SpecCloseFrom(s, f, i) && SpecCloseFrom(s, f, i) < len(s))
 //@   ensures implies(SpecCloseFrom(s, f, i) >= 0, SpecDepth(s, f, SpecCloseFrom(s, f, i)+1) <= 0)
 //@   ensures implies(SpecCloseFrom(s, f, i) >= 0, forall(i+1, SpecCloseFrom(s, f, i)+1, func(j int) bool { return SpecDepth(s, f, j) > 0 }))
+
 func LemmaCloseFrom(s string, f, i int) {
 	if i >= len(s) {
 		return
